@@ -53,34 +53,43 @@ def _bin(tt: str, a: int, b: int, mask: int) -> int:
     return r
 
 
+class ArityError(ValueError):
+    """A gate has a number of operands its type does not admit (ill-formed netlist)."""
+
+
+def _arity(cond: bool, typ: str, k: int):
+    if not cond:
+        raise ArityError(f'gate type {typ} with {k} operand(s)')
+
+
 def apply_gate(typ: str, ops: list[int], mask: int) -> int:
     if typ == 'ALWAYS_TRUE':
         return mask
     if typ == 'ALWAYS_FALSE':
         return 0
     if typ == 'NOT':
-        assert len(ops) == 1
+        _arity(len(ops) == 1, typ, len(ops))
         return ops[0] ^ mask
     if typ == 'IFF':
-        assert len(ops) == 1
+        _arity(len(ops) == 1, typ, len(ops))
         return ops[0]
     if typ in FIXED_BINARY:
-        assert len(ops) == 2, (typ, len(ops))
+        _arity(len(ops) == 2, typ, len(ops))
         return _bin(BIN_TT[typ], ops[0], ops[1], mask)
     if typ in ('AND', 'NAND'):
-        assert len(ops) >= 2
+        _arity(len(ops) >= 2, typ, len(ops))
         r = mask
         for o in ops:
             r &= o
         return r ^ mask if typ == 'NAND' else r
     if typ in ('OR', 'NOR'):
-        assert len(ops) >= 2
+        _arity(len(ops) >= 2, typ, len(ops))
         r = 0
         for o in ops:
             r |= o
         return r ^ mask if typ == 'NOR' else r
     if typ in ('XOR', 'NXOR'):
-        assert len(ops) >= 2
+        _arity(len(ops) >= 2, typ, len(ops))
         r = 0
         for o in ops:
             r ^= o
